@@ -102,7 +102,7 @@ SDD_T = ("BinarySDD", "SddOr", "SddAnd", "SddPtr")
 PROPS = {
     "C01": {
         "level": "other",
-        "rules": [("PA", 1, None), ("DI", 0, None), ("DF", 1, has("VarOrder", "label-tables")), ("CP", 19, has("builder::bdd::", "repr::bdd::BddPtr", "cache::all_app", "cache::lru_app")),
+        "rules": [("WC", 0, has("bdd-edges")), ("PA", 1, None), ("DI", 0, None), ("DF", 1, has("VarOrder", "label-tables")), ("CP", 19, has("builder::bdd::", "repr::bdd::BddPtr", "cache::all_app", "cache::lru_app")),
                   ("IM", 14, has("IM2", "IM3")), ("HE", 2, has("BddNode:scratch", "BddNode:fields")),
                   ("DT", 7, has("BddPtr", "BottomUpBuilder::or:", "BottomUpBuilder::compose:")),
                   ("FS", 2, has("or_lst", "and_lst")), ("ST", 2, None), ("GL", 1, has("GL6")), ("VO", 14, vo_sel("::bdd::", "var_order")),
@@ -157,7 +157,7 @@ PROPS = {
     },
     "C07": {
         "level": "other",
-        "rules": [("WC", 4, has("hash-memo")), ("PA", 1, None), ("DF", 1, has("WmcParams", "label-tables")), ("DI", 0, None), ("DP", 8, has("unsmoothed_wmc", "evaluate")), ("CP", 8, has("fold", "bdd_fold_h", "BddPtr::low", "BddPtr::high")),
+        "rules": [("WC", 0, has("bdd-edges")), ("WC", 4, has("hash-memo")), ("PA", 1, None), ("DF", 1, has("WmcParams", "label-tables")), ("DI", 0, None), ("DP", 8, has("unsmoothed_wmc", "evaluate")), ("CP", 8, has("fold", "bdd_fold_h", "BddPtr::low", "BddPtr::high")),
                   ("MS", 13, None), ("FS", 6, has("fold", "wmc", "assignment_weight", "bb_ub", "marginal_map")),
                   ("SH", 3, has("SH5")), ("LAW", 55, None), ("LT", 1, has("WmcParams")),
                   ("SP", 14, has("SP1", "SP2")), ("NB", 33, None), ("WT", 5, hasnot("from_litvec")), ("IC", 1, has("repr::wmc::")), ("WC", 4, has("bdd-node")), ("VO", 1, vo_sel("builder::bdd", only_label_order=True))],
